@@ -258,41 +258,54 @@ def line_of(text, pos):
 
 class Unit:
     def __init__(self, unit_path):
-        with open(unit_path, 'rb') as f:
-            self.spec = tomllib.load(f)
-        # merge included units (files, fns, shims, specs, item_extra); the including unit wins on duplicates
-        for inc in self.spec.get('include', []):
-            with open(os.path.join(os.path.dirname(unit_path), inc + '.toml'), 'rb') as f:
-                sub = tomllib.load(f)
-            for key in ('shims', 'specs'):
-                merged = list(sub.get(key, []))
-                for x in self.spec.get(key, []):
-                    if x not in merged:
-                        merged.append(x)
-                self.spec[key] = merged
-            have_files = {f['path']: f for f in self.spec.get('file', [])}
-            for f in sub.get('file', []):
-                if f['path'] in have_files:
-                    tgt = have_files[f['path']]
-                    if 'keep' in tgt and 'keep' in f:
-                        tgt['keep'] = list(dict.fromkeys(list(f['keep']) + list(tgt['keep'])))
-                    for k in ('extra', 'pre'):
-                        if f.get(k):
-                            tgt[k] = f[k] + '\n' + tgt.get(k, '')
-                else:
-                    self.spec.setdefault('file', []).insert(0, f)
-            have_fns = set((f['file'], f.get('item', ''), f['name']) for f in self.spec.get('fn', []))
-            for fo in sub.get('fn', []):
-                if (fo['file'], fo.get('item', ''), fo['name']) not in have_fns:
-                    self.spec.setdefault('fn', []).append(fo)
-            for ie in sub.get('item_extra', []):
-                self.spec.setdefault('item_extra', []).append(ie)
+        self.spec = self.load_spec(unit_path)
         self.name = self.spec['name']
         self.unit_path = unit_path
         self.report = dict(unit=self.name, files=[], rules=[], functions=[], assumptions=[],
                            obligations=[])
         self.out_lines = []   # (text, origin, fn)
         self.obl = {}         # tag -> dict(owner,label,fn,kind)
+
+    def load_spec(self, unit_path):
+        with open(unit_path, 'rb') as f:
+            spec = tomllib.load(f)
+        # merge included units (files, fns, shims, specs, item_extra); the including unit wins on duplicates
+        for inc in spec.get('include', []):
+            sub = self.load_spec(os.path.join(os.path.dirname(unit_path), inc + '.toml'))
+            for key in ('shims', 'specs'):
+                merged = list(sub.get(key, []))
+                for x in spec.get(key, []):
+                    if x not in merged:
+                        merged.append(x)
+                spec[key] = merged
+            have_files = {f['path']: f for f in spec.get('file', [])}
+            for f in sub.get('file', []):
+                if f['path'] in have_files:
+                    # same source file in both units: start from the included entry, the including unit overrides
+                    tgt = have_files[f['path']]
+                    merged = dict(f)
+                    for k, v in tgt.items():
+                        if k in ('extra', 'pre') and f.get(k):
+                            merged[k] = f[k] + '\n' + v
+                        elif k == 'rewrite' and f.get(k):
+                            merged[k] = list(f[k]) + [x for x in v if x not in f[k]]
+                        elif k == 'keep' and f.get(k):
+                            merged[k] = list(dict.fromkeys(list(f[k]) + list(v)))
+                        else:
+                            merged[k] = v
+                    if 'keep' not in tgt:
+                        merged.pop('keep', None)   # the including unit keeps every item of the file
+                    tgt.clear()
+                    tgt.update(merged)
+                else:
+                    spec.setdefault('file', []).insert(0, f)
+            have_fns = set((f['file'], f.get('item', ''), f['name']) for f in spec.get('fn', []))
+            for fo in sub.get('fn', []):
+                if (fo['file'], fo.get('item', ''), fo['name']) not in have_fns:
+                    spec.setdefault('fn', []).append(fo)
+            for ie in sub.get('item_extra', []):
+                spec.setdefault('item_extra', []).append(ie)
+        return spec
 
     # -- helpers ---------------------------------------------------------------------------
     def rule(self, rule, path, line, detail):
